@@ -315,6 +315,11 @@ func runC13(r *core.Run) {
 		}
 	})
 	r.Note("every_length_up_to", maxN)
+	hd := 3
+	if !r.Quick() {
+		hd = 4
+	}
+	c13History(r, hd)
 	r.Sample(map[string]any{"fn": "base32.EncodeToString", "input": "00ff", "output": refmodel.B32Encode([]byte{0, 0xff}, true)})
 	r.Sample(map[string]any{"fn": "base32.DecodeString", "input": "aa=====a", "reference": "reject"})
 	r.Sample(map[string]any{"fn": "base64.DecodeString", "input": "AQ=\n=", "reference": "accept 01"})
